@@ -7,6 +7,9 @@ hook_shas = [l.split()[0] for l in hooks_commits if l.split(' ',1)[1].startswith
 
 # property id -> (engine, technique, level text, level note, design_ref)
 CHECKS = {
+ 'C05': ('hist', 'explicit-state exploration of histories; every distinct state is round-tripped through STAM JSON (pretty, compact, @include stand-off files) and compared item by item; plus an exhaustive value/identifier sweep',
+         'Every distinct store state reached by the history exploration (incl. gaps after removals, id-less items, all selector kinds, range-compressed complex selectors, multi-byte text) is serialised and reloaded; resources, datasets, keys, typed values, annotation order, ids, target kinds, referenced items, offsets and alignment and data references must be identical, and the second serialisation byte-identical. Shallow states are additionally laid out as stand-off files. A sweep round-trips one store per value of all DataValue types and per awkward string used as value / key id / data id / annotation id.',
+         'Bounded depth and alphabet; sub-store (@include of stores) level is not covered yet. Id-less items are compared by rank.', 'DESIGN.md section 4 C05'),
  'C14': ('hist', 'explicit-state exploration of histories; in every reached state every invalid request of a menu is issued through three entry points and the full public observation is compared before/after',
          'In every state reached by the history exploration (depth 3 quick / 4 thorough) each of 17 kinds of invalid request is issued directly, in the middle of a 3-element batch and from a JSON file; whenever the call returns Err the complete public observation (content, known text selections, segmentation, raw lengths, index sizes, id lookups) must equal the one before, and the corrected request must then produce exactly the store it produces on the untouched state.',
          'Bounded depth / alphabet / menu of invalid requests (c14::invalid_menu). Requests the library accepts are outside this property.', 'DESIGN.md section 4 C14'),
